@@ -44,7 +44,7 @@ def wallets(seed_i, ei, version):
 def public_view(w, n):
     return {"key": n.public_key.sec().hex(), "chain": bytes(n.chain_code).hex(), "depth": n.depth, "index": n.index,
             "fp": bytes(n.parent_fingerprint).hex(), "addr": {k: getattr(w, k + "_address")(n) for k in KINDS},
-            "xpub": w.node_extended_keys(n)["pub"], "path": str(n).replace("m", "M", 1)}
+            "xpub": w.node_extended_keys(n)["pub"], "node_xpub": n.extended_public_key(), "path": str(n).replace("m", "M", 1)}
 
 
 def ref_view(refn, testnet, sub, wo_xpub_version_of):
